@@ -215,24 +215,24 @@ def p_C20(res, facts, tier):
 
 PROPS = {
     'C20': dict(undecided='nothing', fn=p_C20, level='proof', explanation='Each clamping conversion is evaluated on the partition {below, inside, above, NaN} of all f32 inputs (+-inf included in the outer parts): result is the bound / the input / the bound / a bound; Note and channel clamps on {<= limit, > limit}; the newtypes are constructed only inside their validating constructors (or from in-range constants) and their field is private; the envelope stores exactly the converted value. Thorough tier adds compile-fail witnesses (private constructor / field).'),
-    'C17': dict(undecided='panics inside trusted container code (heapless)', fn=p_C17, level='proof', explanation='Every public entry point of the six modules is analysed from the most general abstract pre-state satisfying its class invariant over the documented argument ranges (incl. NaN/inf where stated, parser-state x byte-class partitions for MIDI); every Assert terminator and explicit panic met becomes an obligation, all are discharged; class invariants are re-established on every post-state; all reachable Assert sites are visited (coverage floor); every loop is driven by a bounded iterator; timed envelope phases end (increment >= 1 and exact roll-over detection). Pre-states are restricted to the class invariant of each type (accumulator <= mask, scale mask in [1,4095], gate <=> held list non-empty, edge latches consistent with the gate, note numbers <= 127, ribbon counters saturated, pressing => buffer full of the current run) and R-INV re-establishes every one of them on every post-state. R-PANIC is the only judge of panicking paths: the other properties are decided on the returning paths.'),
+    'C17': dict(undecided='panics inside trusted container code (heapless)', fn=p_C17, level='proof', explanation='Every public entry point of the six modules is analysed from abstract pre-states over the documented (finite) argument ranges (parser-state x byte-class partitions for MIDI); every Assert terminator and explicit panic met becomes an obligation, all are discharged; all reachable Assert sites are visited (coverage floor); every loop is driven by a bounded iterator. Class invariants are an assume/guarantee device: accumulator <= mask, LFO increment <= 2^T, scale mask in [1,4095] and saturated ribbon counters are needed on the pinned tree; the others (gate <=> held list non-empty, edge latches, note numbers <= 127, pressing => buffer full, stored envelope increment bounded) are assumed only when some panic obligation cannot be discharged without them, and whatever is assumed is re-established on every post-state (R-INV). Termination of the envelope: legal order of the phases on tick, no missed wrap, strict progress while staying, increment >= 1, the unchecked addition fits (how long a phase lasts is the statement of C02 and is not judged). R-PANIC is the only judge of panicking paths: the other properties are decided on the returning paths.'),
     'C15': dict(undecided='nothing', fn=p_C15, level='proof', explanation='Effect summary of poll() over (in range?) x (settling count reached?) x (buffer full?) x (pressing, just_pressed, just_released): every out-of-range path releases, zeroes both progress counters and latches the release edge; in-range paths advance the counters by one (saturating), store the sample iff settled, and raise the press exactly when the fill counter reaches the capacity; getters return and clear. The run-length statement follows by induction on the counters.'),
     'C16': dict(undecided='the exact f32 value of the mean; heapless ring order is trusted', fn=p_C16, level='other', explanation='current_val is written only in the buffer-full block as E(a), a = sum(take(oldest_ordered(buffer after this write), N-discard))/(N-discard) (container terms), retained on every other path; value() = current_val/boundary; E is monotone with 0 <= E(a) <= a on the parameter box; counters restart after every out-of-range sample so no earlier press contributes; constructor discard count agrees with the capacity helper (N = main+discard+1). heapless ring order is trusted; the exact f32 mean is not decided.'),
     'C13': dict(undecided='f32 quantisation of the filter state near convergence', fn=p_C13, level='proof', explanation='For the constructor and for set_time over a partition of t in [0,inf) that carries the cutoff/sample-rate relation exactly (t=0; 0<t<1/max_fc as tau/fs; t=1/max_fc; 1/max_fc<t<1/min_fc as 1/(u*fs), u=f0/fs; t=1/min_fc; t>1/min_fc; max_fc/fs read from the design of the constructor), the coefficient terms produced by the dependency design (its own MIR) are, after clearing the common denominator, a convex combination: b0,b1,-a1 >= 0, sum 1, pole -a1 < 1, a2=b2=0; process() is the five-term recurrence on (input, previous input, previous output) and set_time touches nothing but the coefficients. Hence no overshoot/ringing for any history and contraction for constant input, over the reals.'),
     'C14': dict(undecided='f32 rounding of the coefficients inside the response lemma', fn=p_C14, level='other', explanation='set_time is ignored exactly on paths implying |t - cached_t| <= 0.05 and then writes nothing; otherwise cached_t := t together with the coefficients, whose design argument is pi*clamp(1/t, 0.1 Hz, max_fc)/fs per partition of t. The response percentages are decided as a lemma about these formulas by interval arithmetic over n = t*fs (R-RESPONSE), over the reals.'),
-    'C07': dict(undecided='nothing (one reasoned exception: the zero-initialised search result, excluded by the mask invariant)', fn=p_C07, level='proof', explanation='Mask invariant allowed in [1,4095] is inductive over new/allow/forbid (Kleene iteration over the note slice, slice length partitioned 0 / >=1), forbid rescues the LAST note; the hysteresis early return is taken only on paths that imply the cached pitch class (note mod 12) is enabled now; every value find_nearest_note can return is the note of an enabled candidate (loop invariant: the recorded best is always pc*H+k*O with pc enabled, checked inductive over both back edges).'),
+    'C07': dict(undecided='nothing (one reasoned exception: the zero-initialised search result, excluded by the mask invariant)', fn=p_C07, level='proof', explanation='Mask invariant allowed in [1,4095] is inductive over new/allow/forbid (Kleene iteration over the note slice, slice length partitioned 0 / >=1), forbid rescues the LAST note; every Note is a pitch class 0..11; the hysteresis early return is taken only on paths that imply the cached pitch class (note mod 12) is enabled now; every value find_nearest_note can return is the note of an enabled candidate (loop invariant: the recorded best is always pc*H+k*O with pc enabled, checked inductive over both back edges).'),
     'C08': dict(undecided='the hand-written nearest-note lemma that combines the decided premises (DESIGN §6 C08); f32 rounding of v*10^6 beyond the stated 10 uV tolerance', fn=p_C08, level='other', explanation='Every premise of the nearest-note lemma is decided from the MIR: (P1) candidates are visited in strictly ascending voltage: octaves exactly k-1 (if it exists), k, k+1 (if it exists) ascending, pitch classes 0..12 ascending, 11*H < O; (P2, R-ARGMIN) one iteration of the scan, from an ARBITRARY accumulator state, is one step of a running arg-min over |vin - candidate| with sound early exits: a disabled pitch class changes nothing; a candidate within one half step can only be returned itself; the best so far is returned early only when the current candidate is farther; the accumulators are updated together to (candidate, |vin - candidate|) and only when that is not farther than the best so far; (P3) every returned note is the visited candidate or the recorded best, the search input is the clamped input, microvolt constants consistent (drift < 10 uV); (P4) configuring the scale does not touch the conversion cache. The lemma (ascending candidates + these step rules => nearest allowed note with the semitone-bucket exception, ties either way, same in every octave) is a written proof, not machine-checked.'),
-    'C09': dict(undecided='monotonicity of the note sequence (depends on C08 optimality)', fn=p_C09, level='other', explanation='convert(): early return exactly on paths implying (pitch class enabled) and stairstep-H < v < stairstep+W+H, rewriting only the fraction; every other path re-searches with the clamped input and its result carries no symbol of the previous conversion (history-free); the freshly constructed quantizer cannot take the early return. Monotonicity of the note sequence depends on C08 optimality and is not decided.'),
+    'C09': dict(undecided='monotonicity of the note sequence (depends on C08 optimality)', fn=p_C09, level='other', explanation='convert(): early return exactly on paths implying (pitch class enabled) and stairstep-H < v < stairstep+W+H, rewriting only the fraction; every other path re-searches with the clamped input and its result carries no symbol of the previous conversion, and the search itself reads nothing of the previous conversion (history-free); the freshly constructed quantizer cannot take the early return. Whether the search finds the right note is the statement of C07 / C08 and is not judged. Monotonicity of the note sequence depends on C08 optimality and is not decided.'),
     'C19': dict(undecided='sufficiency for the chromatic [0,1)-semitone clause (only the necessary tiling condition R-TILING is decided: it FAILS on the pinned tree and is recorded as a known finding) and the two-ulp reproduction statement', fn=p_C19, level='other', explanation='On both return paths the record returned is the cached record, stairstep = note_num/12 is re-established whenever the note is written, fraction = v - stairstep (raw input on the hysteresis path, clamped input otherwise), early-return fraction within (-H, W+H). Chromatic clause: the necessary conditions that the input is truncated (not rounded) onto the microvolt grid and that twelve pitch-class steps of the candidate term fill one octave step exactly (R-TILING) are decided; the second fails on the pinned tree (12*83333 uV < 1 V: known finding, see known_findings.json). The two-ulp statement is not decided.'),
-    'C01': dict(undecided='bit-exact f32 statements ("exactly 1.0" is decided as P = 1 over the reals with the last table entry exactly 1.0)', fn=p_C01, level='other', explanation='calc_value per state and table-cell partition equals the documented blend start + (target-start)*sample as an exact polynomial term; its range over the invariant box (latched levels, sustain, table values in [0,1]) is [0,1] by vertex evaluation; start/end levels per phase; tables are the documented RC curves (node error + curvature bound); latches copy the output level; phases are entered in order, advance exactly on the wrap of the accumulated phase and restart at phase 0, and each timed tick programs the increment of its own phase, which is >= 1 (premises shared with C02). f32 rounding (<= 2 ulp) is not decided.'),
+    'C01': dict(undecided='bit-exact f32 statements ("exactly 1.0" is decided as P = 1 over the reals with the last table entry exactly 1.0)', fn=p_C01, level='other', explanation='calc_value per state and table-cell partition equals the documented blend start + (target-start)*sample as an exact polynomial term; its range over the invariant box (latched levels, sustain, table values in [0,1]) is [0,1] by vertex evaluation; start/end levels per phase; tables are the documented RC curves (node error + curvature bound); latches copy the output level; phases are entered in order, advance exactly on the wrap of the accumulated phase and restart at phase 0 (premises shared with C02); a gate event is either ignored or starts a proper new segment from the level currently output. The rate at which a phase runs is the statement of C02 and is not judged here. f32 rounding (<= 2 ulp) is not decided.'),
     'C02': dict(undecided='the tick-count inequality as a number (follows from the decided premises by the written lemma) and f32 rounding of the increment', fn=p_C02, level='other', explanation='Complete transition relation of gate_on/gate_off/tick (5 states x 3 methods, timed states forked on roll-over) against the C02 table; every timed tick programs trunc(2^24/(time*fs)) of its own phase; roll-over is implied exactly by acc+inc > mask on the advancing path and excluded on the staying path; increment >= 1 over all legal times (range computed from TimePeriod::from) and sample rates; the constructor stores exactly the sample rate it is given (R-NEW). The tick-count inequality follows from these premises by the written lemma (DESIGN §6 C02).'),
     'C03': dict(undecided='f32 rounding of the interpolation (<= 2 ulp)', fn=p_C03, level='proof', explanation='index() is the top 10 bits and fraction() the low 14 bits scaled to [0,1] (DDS pair terms); calc_value interpolates between adjacent cells (clamped at the end) in every timed state; gate events latch the level currently output and restart at phase 0; tick always recomputes the output from the post-state; table end points meet at phase boundaries; automatic transitions happen exactly on the wrap and restart at phase 0; integer -> f32 conversions in the accessors are exact. Over the reals; f32 rounding of the interpolation not decided.'),
-    'C10': dict(undecided='nothing structural; f32 exactness of the saw/triangle arithmetic is argued (dyadic values), not machine-checked', fn=p_C10, level='proof', explanation='Lfo::get per waveshape over the symbolic accumulator: exact saw/square/triangle terms with their guards implied by the path conditions, sine = interpolation of adjacent cells with wrap, all ranges within [-1,1], table within 0.0125 of sin incl. curvature; get() is read-only; accumulator stays <= mask for every increment; the integer -> f32 conversions of the accumulator are exact (range within 2^24).'),
-    'C11': dict(undecided='the numeric error bounds (2^-23 relative, one counter step) and long-run drift (lemma on the decided formulas)', fn=p_C11, level='other', explanation='Effect summaries as terms: reset -> 0; set_phase -> trunc(mask*(|p| mod 1)); tick -> (acc+inc) mod 2^24; set_frequency writes only increment = trunc(2^24*f/fs); Lfo methods forward unchanged; the phase is what get(UpSaw) shows; Lfo::new stores the sample rate it is given (R-NEW). The numeric error bounds (2^-23 relative, one counter step) follow from these formulas by the written lemma (not machine-checked).'),
+    'C10': dict(undecided='nothing structural; f32 exactness of the saw/triangle arithmetic is argued (dyadic values), not machine-checked', fn=p_C10, level='proof', explanation='Lfo::get per waveshape over the symbolic accumulator: exact saw/square/triangle terms with their guards implied by the path conditions, all ranges within [-1,1]; the sine is judged by its stated tolerance: the extracted term is evaluated for each of the 1024 table cells (table entries folded in) and stays within 0.0125 of sin(2*pi*phase) (R-SINE); table within 0.0125 of sin incl. curvature; get() is read-only; accumulator stays <= mask for every increment; the integer -> f32 conversion of the ramp is exact (range within 2^24).'),
+    'C11': dict(undecided='the numeric error bounds (2^-23 relative, one counter step) and long-run drift (lemma on the decided formulas)', fn=p_C11, level='other', explanation='Effect summaries as terms: reset -> 0; set_phase -> trunc(mask*(|p| mod 1)) or anything within 2^-22 cycle of frac(p); tick -> (acc+inc) mod 2^24; set_frequency writes only increment = trunc(2^24*f/fs) (or within the rounding the statement allows); Lfo methods forward unchanged; the phase is what get(UpSaw) shows (within 2^-23); Lfo::new stores the sample rate it is given (R-NEW). The numeric error bounds (2^-23 relative, one counter step) follow from these formulas by the written lemma (not machine-checked).'),
     'C12': dict(undecided='nothing structural (two f32 ulps allowed by the statement)', fn=p_C12, level='proof', explanation='Sine = piecewise-linear interpolation with neighbour (I+1) mod N and fraction = low bits (so adjacent phases meet, cell N-1 joins cell 0), |tbl[N-1]-tbl[0]| <= 1e-6, max cell slope <= 2*pi*1.002; triangle pieces have slopes +-4 with guards at 1/4 and 3/4 and agree at the joints. Over the reals (plus two f32 ulps allowed by the statement).'),
     'C04': dict(undecided='nothing beyond the heapless container semantics (trusted)', fn=p_C04, level='other', explanation='Effect summaries of MonoMidiReceiver::parse for every note/All-Notes-Off message over all pre-state partitions (held-list length class x latches x modes x priority) are compared with the transition table of C04 as container terms (push/retain/clear, last/max/min); gate<=>non-empty is checked as an inductive invariant. The step from the per-message table to whole streams is induction over messages (written argument, DESIGN §6 C04).'),
     'C05': dict(undecided='nothing', fn=p_C05, level='proof', explanation='Typestate extraction: exact boolean effect summaries of parse()/rising_gate()/falling_gate() over every abstract pre-state satisfying the class invariants, compared with the C05 transition table; invariants rising=>gate, falling=>!gate and gate<=>held list non-empty re-established on every post-state; messages that must be ignored (other channel, unsupported) change no latch (R-FRAME).'),
-    'C06': dict(undecided='end-to-end equality with a reference decoder on arbitrary streams (decided as parser table AND receiver guards AND handler summaries)', fn=p_C06, level='other', explanation='Receiver: every message variant on a foreign channel / unsupported variant / no message leaves all fields but the parser unchanged; every non-real-time byte class is forwarded unmodified exactly once. Parser (dependency MIR): 17 states x 24 byte classes against the MIDI 1.0 framing table. Unsupported controller numbers change nothing. Note-on / note-off / All-Notes-Off partitions also carry the C04/C05 obligations of what applying the message does. Never panics: R-PANIC over parser states x byte classes x held-list length classes from pre-states satisfying the class invariant (re-established by R-INV), plus the dependency parser\'s own assertions. End-to-end equality with a reference decoder is the conjunction of these tables with the C04/C05/C18 handler summaries (not decided end-to-end).'),
+    'C06': dict(undecided='end-to-end equality with a reference decoder on arbitrary streams (decided as parser table AND receiver guards AND handler summaries)', fn=p_C06, level='other', explanation='Receiver: every message variant on a foreign channel / unsupported variant / no message leaves all fields but the parser unchanged; every non-real-time byte class is forwarded unmodified exactly once. Parser (dependency MIR): 17 states x 24 byte classes against the MIDI 1.0 framing table. Unsupported controller numbers change nothing; the handlers return and leave the byte parser alone (what applying a note message does is the statement of C04 / C05). Never panics: R-PANIC over parser states x byte classes x held-list length classes; a class invariant is assumed in the pre-states only when a panic obligation needs it (and is then re-established by R-INV); plus the assertions of the dependency parser. End-to-end equality with a reference decoder is the conjunction of these tables with the C04/C05/C18 handler summaries (not decided end-to-end).'),
     'C18': dict(undecided='nothing', fn=p_C18, level='proof', explanation='Effect summary of the ControlChange arm for a symbolic controller number and value, per dispatch arm, against the routing table of C18; reset_controllers vs constructor defaults; pitch-bend term through the dependency conversion (two pieces), monotone with MSB weight 128 x LSB; every getter returns the stored value; controller and pitch-bend messages of other channels change nothing.'),
 }
 
